@@ -123,10 +123,13 @@ theorem roundtrip (cfg : Cfg) (fields : List Fld) (ms : Members) (hsoft : cfg.so
 /-- For every declared signature — members with or without `sub_name`, at every nesting depth, inside
     argument objects and array elements — the flat signature the member table is built for names every
     member by its OWN `sub_name` (its Python name when it has none): the keys of the documented notation
-    (`order.item.qty`, `order.lines[1].qty`) are the keys the decoder knows. -/
+    (`order.item.qty`, `order.lines[1].qty`) are the keys the decoder knows. And a ByteArray member that
+    declares its `encoding` (hex, base64, urlsafe base64) is read and written with THAT codec, the protocol's
+    urlsafe base64 only serving members that declare none — so `documented_any_order_sub_names` and
+    `roundtrip_sub_names` below hold for every declared encoding (`LeafLaws.roundtrip` for each codec). -/
 theorem sub_names_at_every_depth (dfields : List DFld) :
     keyedFields facts03 none dfields = ownFields dfields :=
-  keyedFields_own facts03 (by decide) none dfields
+  keyedFields_own facts03 (by decide) (by decide) none dfields
 
 /-- hence the documented notation written with the members' own sub_names reaches the user function,
     pairs in any order … -/
@@ -154,7 +157,7 @@ theorem roundtrip_sub_names (cfg : Cfg) (dfields : List DFld) (ms : Members) (hs
 example : keyedFields facts03 none
     [("order".toList, {}, Ex.occ1, .obj 1 [("quantity".toList, { sub := some "qty".toList }, Ex.occ1, .prim Ex.pInt)])] =
     [("order".toList, Ex.occ1, .obj 1 [("qty".toList, Ex.occ1, .prim Ex.pInt)])] := by
-  simp [keyedFields, keyedTy, keyName, facts03]
+  simp [keyedFields, keyedTy, keyName, facts03, effPrim, Ex.pInt]
 
 /-- the declared signature as the decoder is run on it, and the instance as the user function sees it: a
     member no key assigned shows its `default`, a `read_only` member is never assigned -/
@@ -194,6 +197,35 @@ theorem in_header_delivered (cfg : Cfg) (hfields : List Fld) (ms : Members) (ps 
       .ok (.obj (expAttrs hfields ms)) := by
   rw [httpHeaders_pairs ps hn]
   exact documented_any_order cfg hfields ms _ hstrict hsoft hwf hkeys hwt hp
+
+/-- `ByteArray(encoding='hex')`: `?k=deadbeef` are the four bytes de ad be ef, not the urlsafe-base64 reading -/
+example : (match decode facts03 ⟨false, false, Ex.dot⟩
+      (keyedFields facts03 none [("k".toList, { encDeclared := true }, Ex.occ1, .prim (.bytes .hex))])
+      [("k".toList, [some "deadbeef".toList])] with
+    | .ok (.obj [(_, .leaf (.bytes bs))]) => bs
+    | _ => []) = [222, 173, 190, 239] := by decide +kernel
+
+/-! ### shared instances -/
+
+/-- Flattening ignores sharing: a value in which the very same instance sits at several places (two members,
+    twice in a list, at any depth) — given with the identity of every object, no reference back to the root —
+    is written exactly as its tree: every occurrence with all its keys. (`tags` of `object_to_simple_dict`
+    guards the root only; a set of all visited instances would drop the second occurrence: T1 `encGuard`.) -/
+theorem flattening_ignores_sharing (delim : Text) (fields : List Fld) (id : Nat) (attrs : List (Text × LNode))
+    (h : id ∉ idsAttrsL attrs) :
+    encodeShared facts03 delim fields (.obj id attrs) = encode delim fields (stripL (.obj id attrs)) :=
+  encodeShared_tree facts03 (by decide) delim fields id attrs h
+
+/-- … so the round trip of `roundtrip` holds for values with shared instances as well -/
+theorem roundtrip_shared (cfg : Cfg) (fields : List Fld) (ms : Members) (id : Nat) (attrs : List (Text × LNode))
+    (hsoft : cfg.soft = false) (hid : id ∉ idsAttrsL attrs)
+    (hval : stripL (.obj id attrs) = .obj (expAttrs fields ms))
+    (hwf : WfSig fields) (hkeys : KeysOk cfg.delim fields) (hopt : OptFields fields)
+    (hwt : WtMembers facts03 fields ms) (hcontig : ContigMembers ms) (hord : InOrder fields ms) :
+    decode facts03 cfg fields (toDoc facts03 (encodeShared facts03 cfg.delim fields (.obj id attrs))) =
+      .ok (.obj (expAttrs fields ms)) := by
+  rw [flattening_ignores_sharing cfg.delim fields id attrs hid, hval]
+  exact roundtrip cfg fields ms hsoft hwf hkeys hopt hwt hcontig hord
 
 /-! ### before the protocol: the transport's WSDL shortcut -/
 
